@@ -153,6 +153,8 @@ pub(crate) const K_FLUSH_REFCOUNT: u8 = 26; // flush_refcount()
 pub(crate) const K_FLUSH_MAPPING: u8 = 27; // flush_meta_generic(l1, l2cache, ..) from flush_meta
 pub(crate) const K_TRYFROM: u8 = 28; // try_allocate_from(host, count)
 pub(crate) const K_COMMIT_HEADER: u8 = 29; // commit_header (off = l1 offset, len = l1 entries in the header)
+pub(crate) const K_FLUSH_ENTRIES: u8 = 30; // flush_cache_entries(evicted) (len = number of entries)
+pub(crate) const K_GET_L1: u8 = 31; // get_l1_entry(split)
 pub(crate) const K_TRYALLOC: u8 = 14; // try_alloc_from_rb_slice (off,len = granted run; len 0 = None)
 
 const NOREC: Rec = Rec { kind: K_NONE, entry: 0, off: 0, len: 0, buf_start: 0, flags: 0 };
@@ -206,6 +208,64 @@ impl<T> KLock<T> {
     pub fn kread(&self) -> RefMut<'_, T> {
         self.0.borrow_mut()
     }
+}
+
+// ---- slice-load wrappers (segment SL)
+#[derive(Clone, Copy, PartialEq, Eq)]
+pub(crate) enum KWhich {
+    L2 = 1,
+    Rb = 2,
+}
+/// what a cache lookup hands back: which cache, which key
+#[derive(Clone, Copy)]
+pub(crate) struct KTok {
+    pub key: usize,
+    pub which: KWhich,
+}
+/// the evicted entries add_cache_slice reports
+pub(crate) struct KKill {
+    pub n: usize,
+}
+impl KKill {
+    pub fn len(&self) -> usize {
+        self.n
+    }
+}
+/// stand-in for an AsyncLruCache in the lookup wrappers: the environment decides whether the
+/// first and the second lookup hit
+pub(crate) struct KProbe {
+    pub which: KWhich,
+    pub hit: [bool; 2],
+    pub gets: Cell<usize>,
+    pub keys: [Cell<usize>; 2],
+}
+impl KProbe {
+    pub fn new(which: KWhich) -> Self {
+        KProbe { which, hit: [false, false], gets: Cell::new(0), keys: [Cell::new(usize::MAX), Cell::new(usize::MAX)] }
+    }
+    pub fn get(&self, key: usize) -> Option<KTok> {
+        let n = self.gets.get();
+        self.gets.set(n + 1);
+        if n < 2 {
+            self.keys[n].set(key);
+        }
+        if n < 2 && self.hit[n] {
+            Some(KTok { key, which: self.which })
+        } else {
+            None
+        }
+    }
+}
+pub(crate) struct KSl {
+    pub l2: KProbe,
+    pub rb: KProbe,
+    /// add_cache_slice: Some(n) = n entries evicted
+    pub evict: Option<usize>,
+    pub fail_add: bool,
+    pub fail_flush_rc: bool,
+    pub fail_flush: bool,
+    pub fail_l1: bool,
+    pub l1e: u64,
 }
 
 /// entries handed back by the (not lifted) mapping lookup
@@ -400,6 +460,7 @@ pub(crate) struct KEnv {
     pub passes_left: Cell<usize>,
     pub l1_shim: u8,
     pub header: KLock<crate::meta::Qcow2Header>,
+    pub sl: KSl,
 }
 
 /// stand-in for the boxed backing device
@@ -437,6 +498,8 @@ impl KEnv {
             passes_left: Cell::new(0),
             l1_shim: 0,
             header: KLock::new(crate::meta::verif_header::mk_header(16, 4, 0, 1, 1, false)),
+            sl: KSl { l2: KProbe::new(KWhich::L2), rb: KProbe::new(KWhich::Rb), evict: None, fail_add: false,
+                      fail_flush_rc: false, fail_flush: false, fail_l1: false, l1e: 0 },
         }
     }
 
@@ -736,6 +799,40 @@ impl KEnv {
         let start = (host & !(cs - 1)) + skip * cs;
         kani::assume(start + (n as u64) * cs <= end);
         Ok(Some((start, n)))
+    }
+    // ---- slice-load wrappers (segment SL): add_cache_slice and the write-back of what it evicted
+    pub fn k_add_cache_slice<B: Table, E: TableEntry>(&self, which: KWhich, top_e: &E, key: usize, slice_off: usize, slice: B) -> KResult<Option<KKill>> {
+        self.rec(Rec { kind: K_ADD_SLICE, entry: top_e.get_value(), off: slice_off as u64, len: slice.byte_size(),
+                       buf_start: key, flags: (which as u32) | ((slice.entries() as u32) << 2) });
+        core::mem::forget(slice);
+        if self.sl.fail_add {
+            return Err(KErr);
+        }
+        Ok(match self.sl.evict {
+            Some(n) => Some(KKill { n }),
+            None => None,
+        })
+    }
+    pub fn k_sl_flush_refcount(&self) -> Qcow2Result<()> {
+        self.rec(Rec { kind: K_FLUSH_REFCOUNT, ..NOREC });
+        if self.sl.fail_flush_rc {
+            return Err(crate::error::Qcow2Error::from_desc(String::new()));
+        }
+        Ok(())
+    }
+    pub fn k_sl_flush_cache_entries(&self, v: KKill) -> Qcow2Result<()> {
+        self.rec(Rec { kind: K_FLUSH_ENTRIES, len: v.n, ..NOREC });
+        if self.sl.fail_flush {
+            return Err(crate::error::Qcow2Error::from_desc(String::new()));
+        }
+        Ok(())
+    }
+    pub fn k_sl_get_l1_entry(&self, _split: &crate::meta::SplitGuestOffset) -> KResult<L1Entry> {
+        self.rec(Rec { kind: K_GET_L1, ..NOREC });
+        if self.sl.fail_l1 {
+            return Err(KErr);
+        }
+        Ok(unsafe { core::mem::transmute::<u64, L1Entry>(self.sl.l1e) })
     }
     // ---- L1 header-entry extension
     pub fn k_commit_header<F: FnOnce(&mut crate::meta::Qcow2Header)>(&self, h: &mut RefMut<'_, crate::meta::Qcow2Header>, _rollback: F) -> Qcow2Result<()> {
